@@ -357,12 +357,13 @@ where
 impl Machine {
     fn try_get_heap_backed_closure(&self, raw: RawVal) -> Option<(heap::HeapIdx, ClosureIdx)> {
         let heap_idx = Self::get_as::<heap::HeapIdx>(raw);
-        // A live slot-map key carries an odd version in its upper half. A word with an even
-        // non-zero "version" is not a handle (e.g. a stale or forged value); if the lookup
-        // nevertheless succeeds it has aliased a vacant slot and the object read is garbage.
+        // A live slot-map key carries an odd version (the low half of the transmuted word on
+        // this layout: idx in the upper half). A word with an even non-zero "version" is not a
+        // handle (e.g. a forged value); if the lookup nevertheless succeeds it has aliased a
+        // vacant slot and the object read is garbage.
         #[cfg(feature = "verif-hooks")]
         crate::verif::check(
-            raw == 0 || (raw >> 32) & 1 == 1 || !self.heap.contains_key(heap_idx),
+            raw == 0 || raw & 1 == 1 || !self.heap.contains_key(heap_idx),
             || format!("non-handle word aliases a vacant heap slot raw={raw:#x}"),
         );
         self.heap.get(heap_idx).and_then(|obj| {
